@@ -21,7 +21,7 @@ suite green (288/288):
   refactor produces: an off-by-one at a threshold, a dropped state guard, two
   swapped fields, one DFA cell, ...). Mutants that turned out to be equivalent
   were removed, not kept as "misses".
-* `seeded/<ID>/`, `seeded/<ID>b/` ... `seeded/<ID>i/` - nine rounds of one change per property, each made by an **independent agent** that
+* `seeded/<ID>/`, `seeded/<ID>b/` ... `seeded/<ID>j/` - ten rounds of one change per property, each made by an **independent agent** that
   was given only the property text and a scratch worktree (nothing from
   `/verif`), asked for a change that needs something specific to manifest (an
   interleaving, a fault at a particular point, a multi-step sequence, an unusual
@@ -30,8 +30,8 @@ suite green (288/288):
   `tools/seedtest.sh` (patch applies to a clean checkout, demo passes/fails as
   claimed, pinned suite still 288/288) before keeping it.
 
-Across the nine rounds 98 of the 180 seeded changes were caught on first contact (11, 12, 10, 10, 13, 10, 11, 10, 11 of 20), the
-other 82 pointed at generator or oracle gaps that were then closed - each table below says which - and eleven of the
+Across the ten rounds 106 of the 200 seeded changes were caught on first contact (11, 12, 10, 10, 13, 10, 11, 10, 11, 8 of 20), the
+other 94 pointed at generator or oracle gaps that were then closed - each table below says which - and eleven of the
 strengthenings exposed genuine defects of the unchanged tree (fixed, §5.1: C18 x2, C08 x2, C04, C15, C11, C05, C20, C10; the C08
 bignum one was pointed out by a seeding agent as a side observation) plus one that is recorded rather than repaired (C06, §5.2).
 
@@ -179,6 +179,25 @@ A **ninth round** (`seeded/<ID>i/`; eight earlier summaries given) - first conta
 | C16i | 64-bit length read as two 32-bit halves, only the low half used: a frame announcing k*2^32 + r octets passes as r octets | announced sizes stopped at 350 000 (payloads are materialised) | header-only frames announcing 2^32 .. 2^63 octets plus a small remainder (as first frame or as continuation): must fail at the header; nothing that follows becomes a message |
 | C17i | starting the closing handshake cancels the pending ping timeout: silent peer never dropped (close timeout off or later) | "ping outstanding, then close" only had responsive peers | silent variant: dropped by the ping's deadline, reported as ping timeout |
 | C19i | `Session.onWelcome` returns early for absent / empty `authextra`: a SCRAM session joins without any server signature | authenticators were driven directly, not through a session | whole-session job (`Session.add_authenticator`, scripted router, proof verified by the RFC 5802 reference) x 9 WELCOME variants: joins only for the correct signature |
+
+A **tenth round** (`seeded/<ID>j/`; nine earlier summaries given) - first contact, quick tier, replays off: 8 caught at once
+(C01j C03j C04j C05j C08j C09j C12j C15j), 12 missed - the agents had to go further afield by now (helper paths, option combinations,
+the way a drop is carried out):
+
+| prop | seeded change needs | gap in my check | strengthening |
+|---|---|---|---|
+| C02j | once one compressed message was received the "message is compressed" flag is never cleared: a later *plain* message on the same connection is fed to the inflater | with compression negotiated, sequences contained only uncompressed messages | each message of a sequence is sent compressed (one compressor per connection, context takeover) or plain; the reference receiver inflates |
+| C06j | a refused `join()` on a still established session resets the "GOODBYE sent" flag: the router's reply is answered again | no `join()` calls on established sessions | endings with a (refused) `join()` between `leave()` and the router's GOODBYE; the refused call must not write anything either |
+| C07j | offer parsing now says "client cannot do no-context-takeover" unless hinted: a server policy asking for it raises, the library's own pair never completes | interop matrix used default offers and default accept policy | offers with all four parameters varied x server policies asking for no-context-takeover / a window limit |
+| C10j | WebSocket size check compares the limit with the fragment size: an oversized result goes out as a fragmented YIELD | WAMP-over-WebSocket transports never had auto-fragmentation on | `autoFragmentSize` in {0, 64, 512, 1000} on the callee's transport |
+| C11j | a handler is removed by swapping the last one into its place: later events reach the remaining handlers out of subscription order | order was *described* but never checked (my omission) | the order in which the handlers of one id are invoked is compared with the model's order on every event |
+| C13j | `wamp.2.json.batched` parsed as `json`: unsupported batched variants accepted, wrong serializer attached | serializer lists contained unbatched serializers only | a second enumeration over {json, json.batched, msgpack, msgpack.batched}: all 64 x 64 ordered subsets |
+| C14j | after a normal leave the attempt is completed only if the transport then closes cleanly; a reset makes the component reconnect | after a GOODBYE exchange the transport always ended the way the component asked for; the verdict looked only at the *last* attempt | the peer may reset the connection after the GOODBYE exchange; no attempt may follow a session that left normally |
+| C16j | after failing with 1009 (close handshake) the payload of the refused frame is still appended to the frame buffer while it arrives | only delivery was observed, not buffering | octets held in bytes-like attributes of the protocol object are measured (generically) before and while the refused payload arrives: no growth while the transport is still up |
+| C17j | asyncio adapter probes for `abortConnection` (Twisted's name): timer-driven drops become `close()`, which never completes while the peer does not read | the fake transports treated close and abort alike | "peer has stopped reading" mode for silent-peer scenarios: only an abort counts as dropped |
+| C18j | error args/kwargs read before the payload codec has decoded them: empty on the caller when a codec is active | no payload codec in C18 | a third of the cases run with the cryptobox keyring on both peers; the wire payload is decoded independently, the forwarded ERROR keeps its payload form |
+| C19j | cryptosign authenticator given an explicit `pubkey` together with `channel_binding` signs the bare challenge | `authextra` never carried a public key | explicit (matching) public key, and construction through `create_authenticator` |
+| C20j | `register(..., prefix=...)` records the un-prefixed URI: encrypted invocations fail the trusted-URI check | registrations used full URIs | registration relative to a `prefix=` |
 
 Round 4 also produced two mutants that do not terminate (C15d on the receive path, C02d under interleaving): a check
 that hangs is useless, so every case / machine step / enumeration block now runs under a CPU-time guard (150 s of CPU of
